@@ -151,8 +151,9 @@ fn parse_outcome(text: &str) -> Value {
 /// one faulted token list: {toks}
 fn lef_fault(case: &Value) -> Value {
     let v = geti(case, "v");
-    // separators 0..5, long multi-byte comment lines 6..14; every third group of 15 with long multi-byte names (tails of 18..33 letters)
-    let idpad = if (v / 15) % 3 == 2 { Some(18 + ((v / 45) % 16) as usize) } else { None };
+    // separators 0..5, long multi-byte comment lines 6..14; every third group of 15 with long multi-byte names: tails of 0, 3, 6, ..
+    // 135 letters followed by 2-, 3- and 4-byte characters, so that every byte offset up to about 140 falls inside a character
+    let idpad = if (v / 15) % 3 == 2 { Some(3 * ((v / 45) % 46) as usize) } else { None };
     let text = crate::lefabs::render_opts(geta(case, "toks"), (v % 3) as u32, (v % 15) as u32, 0, idpad);
     let mut o = parse_outcome(&text);
     o["id"] = id(case);
